@@ -363,6 +363,9 @@ def send_request_segment(ex, kind, case=None):
     ex.unit = f"{type(P).__name__}.send_request"
     g.suspensions.append(rely)
     cmd = make_command(ex, "newcmd")
+    # requires (single requesting task): the previous request on this object has finished
+    if P.response_future is not None:
+        ex.assume(mk_bool(iterm(P.response_future.state) != PENDING))
     r0, tx0 = P._retry, g.tx
     ex.inputs = {"retry": r0, "retries": P.retries, "keep_alive": P.keep_alive}
     raised = None
@@ -411,6 +414,9 @@ def apply_send_request_contract(ex, bound):
     held = lk is not None and (lk.is_locked is True or (not isinstance(lk.is_locked, bool) and not ex.known(
         z3.Not(bterm(lk.is_locked)))))
     ex.check("C06_lock_not_held_when_reentering", not held)
+    f = P.response_future
+    done = f is None or (f.state != PENDING if isinstance(f.state, int) else ex.known(iterm(f.state) != PENDING))
+    ex.check("C04_no_request_in_flight_when_reentering", bool(done))
     return None
 
 
@@ -422,6 +428,8 @@ def execute_segment(ex, kind):
     ex.unit = f"execute@{type(P).__name__}"
     g.suspensions.append(rely)
     cmd = make_command(ex, "newcmd")
+    if P.response_future is not None:
+        ex.assume(mk_bool(iterm(P.response_future.state) != PENDING))     # previous request finished
     ex.inputs = {"keep_alive": P.keep_alive}
     from .inverter_harness import run_coro
     raised = None
